@@ -2,7 +2,7 @@
 ID = 'C06'
 CLAIM = ('xtl::any with payloads int, Small (in place), Stm (small, throwing move => heap), Big (heap) carrying a lifetime ledger that also checks that every copy/move SOURCE is alive; symbolic fault schedule '
          'in every payload copy: copy/move construction, the three assignments, swap (all empty/in-place/heap combinations, same type, with itself, std::swap), reset/clear, construction from a value, '
-         'copy independence, moved-from reuse; has_value/empty/type; pointer, const-pointer and reference any_cast to the stored, other and look-alike types; strong guarantee of throwing copy assignments')
+         'copy independence, moved-from reuse; has_value/empty/type; pointer, const-pointer and reference any_cast to the stored, other and look-alike types; strong guarantee of throwing copy assignments; move/copy assignment from an any owned by the value the target currently holds')
 BOUNDS = {'quick': '4 payload types + empty, 2 objects, one operation (two for the independence/moved-from cases) from every pair of start states, up to 8 throw decisions; payload values 0..29999',
           'thorough': 'same with a symbolic operation selector on a second back end'}
 NOT_COVERED = ['payload types other than the four; over-aligned payloads; ANY_IMPL_FAST_TYPE_INFO_COMPARE / ANY_IMPL_ANY_CAST_MOVEABLE configurations', 'allocation failure']
@@ -14,13 +14,16 @@ OPS = ['copy_ctor', 'move_ctor', 'copy_assign', 'move_assign', 'assign_int', 'as
 
 
 def units(tier):
-    return [Unit('any', 'wrappers.cpp', ['harness.c'], inert=INERT, tv=[('h_op', [])], tv_iters=30000)]
+    return [Unit('any', 'wrappers.cpp', ['harness.c'], inert=INERT, tv=[('h_op', []), ('h_nested', [])], tv_iters=30000)]
 
 
 def obligations(tier):
     obs = []
     for i, name in enumerate(OPS):
         ob = Ob('op/' + name, 'any', 'h_op', defines=['OPFIX=%d' % i], unwind=4, mem_unwind=40, bound='all start states, all fault schedules', min_witnesses=1, timeout=900, flags=['--memory-leak-check']); ob.harness_unwind = 12; obs.append(ob)
+    for k in (2, 4, 0, 3):
+        for how in (0, 1):
+            ob = Ob('nested_source/k%d_%s' % (k, 'move' if how == 0 else 'copy'), 'any', 'h_nested', defines=['KFIX=%d' % k, 'HOWFIX=%d' % how], unwind=4, mem_unwind=40, bound='child kind %d, all values' % k, min_witnesses=1, timeout=600, flags=['--memory-leak-check']); ob.harness_unwind = 12; obs.append(ob)
     if tier == 'thorough':
         ob = Ob('op/any@cadical', 'any', 'h_op', unwind=4, mem_unwind=40, backend='cadical', min_witnesses=2, timeout=3600, flags=['--memory-leak-check']); ob.harness_unwind = 12; obs.append(ob)
     return obs
